@@ -23,6 +23,7 @@ import (
 	"github.com/ThreeDotsLabs/watermill/components/delay"
 	"github.com/ThreeDotsLabs/watermill/components/metrics"
 	"github.com/ThreeDotsLabs/watermill/message"
+	"github.com/ThreeDotsLabs/watermill/message/router/middleware"
 
 	"wmverif/script"
 )
@@ -1049,11 +1050,12 @@ func (e *c20Env) runSubCase(rng *rand.Rand) *c20SubCase {
 // ---------------------------------------------------------------- handler middleware
 
 type c20MwMsg struct {
-	Out    int  `json:"out"`    // 0 ok, 1 error, 2 panic
-	NOuts  int  `json:"nouts"`  // produced messages (ok only)
-	PubOK  bool `json:"pub_ok"` // the handler's publisher accepts
-	PanicV int  `json:"panicv"` // 0 string, 1 error, 2 nil
-	Pass   bool `json:"pass"`   // ok: the handler returns the consumed message itself (router only)
+	Out      int  `json:"out"`       // 0 ok, 1 error, 2 panic
+	NOuts    int  `json:"nouts"`     // produced messages (ok only)
+	PubOK    bool `json:"pub_ok"`    // the handler's publisher accepts
+	PubPanic bool `json:"pub_panic"` // ... or panics (router only; wins over PubOK)
+	PanicV   int  `json:"panicv"`    // 0 string, 1 error, 2 nil
+	Pass     bool `json:"pass"`      // ok: the handler returns the consumed message itself (router only)
 }
 
 type c20MwCase struct {
@@ -1104,6 +1106,9 @@ func c20RandMwMsgs(rng *rand.Rand, router bool) []c20MwMsg {
 			if mm.NOuts == 1 && rng.Intn(2) == 0 {
 				mm.Pass = true
 			}
+			if mm.NOuts > 0 && rng.Intn(4) == 0 {
+				mm.PubPanic = true
+			}
 		}
 		msgs[i] = mm
 	}
@@ -1145,6 +1150,77 @@ func (e *c20Env) runMwDirect(rng *rand.Rand, layers int) *c20MwCase {
 	return c
 }
 
+// the middleware in a handler chain with Retry: "M" = the metrics middleware, "R1"/"R2" = Retry with MaxRetries 1/2
+type c20MwStackCase struct {
+	Stack   []string        `json:"stack"`  // outermost first
+	Script  []int           `json:"script"` // outcome of the successive handler INVOCATIONS: 0 ok, 1 error, 2 panic
+	Top     int             `json:"top"`    // invocations of the whole chain
+	SameMsg bool            `json:"same_msg"`
+	CtxKept bool            `json:"ctx_kept"` // a context value set by the handler is still on the message afterwards
+	HTab    [][]interface{} `json:"htab"`
+	Problem string          `json:"problem,omitempty"`
+}
+
+type c20CtxKey struct{}
+
+func (e *c20Env) runMwStack(rng *rand.Rand) *c20MwStackCase {
+	shapes := [][]string{{"M"}, {"M", "M"}, {"M", "M", "M"}, {"R1", "M"}, {"R2", "M", "M"}, {"M", "R2", "M"}, {"M", "R1", "M", "M"},
+		{"M", "M", "R2"}, {"R1", "M", "R2", "M"}, {"M", "R2"}, {"R2", "M", "R1", "M", "M"}}
+	c := &c20MwStackCase{Stack: shapes[rng.Intn(len(shapes))], Top: 1 + rng.Intn(4), SameMsg: rng.Intn(2) == 0, CtxKept: true}
+	for i := 0; i < rng.Intn(10); i++ {
+		c.Script = append(c.Script, []int{0, 1, 1, 1, 2}[rng.Intn(5)])
+	}
+	if c.Script == nil {
+		c.Script = []int{}
+	}
+	reg := prometheus.NewRegistry()
+	builder := metrics.NewPrometheusMetricsBuilder(reg, "w", "")
+	k := 0
+	var h message.HandlerFunc = func(msg *message.Message) ([]*message.Message, error) {
+		mm := c20MwMsg{}
+		if k < len(c.Script) {
+			mm.Out = c.Script[k]
+		}
+		mm.PanicV = k % 3
+		k++
+		msg.SetContext(context.WithValue(msg.Context(), c20CtxKey{}, k))
+		return c20Outcome(mm, msg.UUID, msg)
+	}
+	for i := len(c.Stack) - 1; i >= 0; i-- {
+		switch c.Stack[i] {
+		case "M":
+			b := builder
+			if rng.Intn(2) == 0 {
+				b = metrics.NewPrometheusMetricsBuilder(reg, "w", "")
+			}
+			h = b.NewRouterMiddleware().Middleware(h)
+		case "R1":
+			h = middleware.Retry{MaxRetries: 1, InitialInterval: 50 * time.Microsecond}.Middleware(h)
+		default:
+			h = middleware.Retry{MaxRetries: 2, InitialInterval: 50 * time.Microsecond}.Middleware(h)
+		}
+	}
+	msg := message.NewMessage("m", nil)
+	for t := 0; t < c.Top; t++ {
+		if !c.SameMsg {
+			msg = message.NewMessage(fmt.Sprintf("m%d", t), nil)
+		}
+		func() {
+			defer func() { recover() }()
+			h(msg)
+		}()
+		if v, _ := msg.Context().Value(c20CtxKey{}).(int); v != k {
+			c.CtxKept = false
+		}
+	}
+	ht, err := c20Gather(reg, "w_handler_execution_time_seconds", []string{"handler_name", "success"})
+	if err != nil {
+		c.Problem = "gather: " + err.Error()
+	}
+	c.HTab = e.table(ht, 1, "true", "false")
+	return c
+}
+
 // a real Router with AddPrometheusRouterMetrics applied [layers] times
 func (e *c20Env) runMwRouter(rng *rand.Rand, layers int) *c20MwCase {
 	c := &c20MwCase{Layers: layers, Router: true, Msgs: c20RandMwMsgs(rng, true)}
@@ -1168,6 +1244,9 @@ func (e *c20Env) runMwRouter(rng *rand.Rand, layers int) *c20MwCase {
 		id := msgs[0].UUID
 		if i := strings.Index(id, "-out"); i >= 0 {
 			id = id[:i]
+		}
+		if byID[id].PubPanic {
+			panic([]interface{}{"scripted publisher panic", nil, errors.New("x")}[n%3])
 		}
 		if !byID[id].PubOK {
 			return errors.New("scripted publish error")
@@ -1391,6 +1470,11 @@ func cmdC20(args []string) error {
 	res["pub"] = pubs
 	res["sub"] = subs
 	res["mw"] = mws
+	stacks := []*c20MwStackCase{}
+	for i := 0; i < *n/2; i++ {
+		stacks = append(stacks, e.runMwStack(rng))
+	}
+	res["mwstack"] = stacks
 	res["delay"] = c20DelayCases(rng, *n)
 	res["old_delay_picks"] = c20OldPicks
 	res["glue"] = e.glue()
